@@ -9,7 +9,6 @@ use crate::{
     CompilationError, XStaticFunction,
 };
 
-use num_integer::binomial;
 use num_traits::{One, Pow, Signed, ToPrimitive, Zero};
 
 use rc::Rc;
@@ -423,6 +422,20 @@ pub(crate) fn add_int_permutation<W, R, T>(
     )
 }
 
+/// C(n, k) for k <= n by the multiplicative formula (exact at every step), or None when it does not fit a usize
+fn checked_binomial(n: usize, k: usize) -> Option<usize> {
+    let k = k.min(n - k);
+    let mut r: u128 = 1;
+    for j in 0..k {
+        // r == C(n, j) fits a usize, so the product fits a u128; C(n, j) * (n - j) is divisible by j + 1
+        r = r * (n - j) as u128 / (j + 1) as u128;
+        if r > usize::MAX as u128 {
+            return None;
+        }
+    }
+    Some(r as usize)
+}
+
 pub(crate) fn add_int_combination<W, R, T>(
     scope: &mut RootCompilationScope<W, R, T>,
 ) -> Result<(), CompilationError> {
@@ -448,9 +461,10 @@ pub(crate) fn add_int_combination<W, R, T>(
                 }
                 return Ok(manage_native!(XSequence::<W, R, T>::Empty, rt));
             }
-            let mut s_cutoff = binomial(n-1,k-1);
-            let total = s_cutoff*n/k;
-            if i >= total{
+            // the unranking below works on counts of combinations: they must fit a usize (products are taken in u128)
+            let Some(mut s_cutoff) = checked_binomial(n-1,k-1) else { return xerr(ManagedXError::new("too many combinations", rt)?); };
+            let total = s_cutoff as u128 * n as u128 / k as u128;
+            if i as u128 >= total{
                 return xerr(ManagedXError::new("i too large", rt)?);
             }
             let mut s = 0;
@@ -460,13 +474,13 @@ pub(crate) fn add_int_combination<W, R, T>(
                 if i < s_cutoff{
                     ret.push(s);
                     if k > 1{
-                        s_cutoff = s_cutoff*(k-1)/(n-s-1);
+                        s_cutoff = (s_cutoff as u128 * (k-1) as u128 / (n-s-1) as u128) as usize;
                     }
                     k -= 1;
                     s+=1;
                 } else {
                     i -= s_cutoff;
-                    s_cutoff = s_cutoff*(n-s-k)/(n-s-1);
+                    s_cutoff = (s_cutoff as u128 * (n-s-k) as u128 / (n-s-1) as u128) as usize;
                     s+=1;
                 }
             }
@@ -501,9 +515,11 @@ pub(crate) fn add_int_combination_with_replacement<W, R, T>(
                 }
                 return Ok(manage_native!(XSequence::<W, R, T>::Empty, rt));
             }
-            let mut s_cutoff = binomial(n+k-2,k-1);
-            let total = (s_cutoff*(n+k-1))/k;
-            if i >= total{
+            // the unranking below works on counts of combinations: they must fit a usize (products are taken in u128)
+            let Some(nk) = n.checked_add(k) else { return xerr(ManagedXError::new("too many combinations", rt)?); };
+            let Some(mut s_cutoff) = checked_binomial(nk-2,k-1) else { return xerr(ManagedXError::new("too many combinations", rt)?); };
+            let total = s_cutoff as u128 * (nk-1) as u128 / k as u128;
+            if i as u128 >= total{
                 return xerr(ManagedXError::new("i too large", rt)?);
             }
             let mut s = 0;
@@ -513,12 +529,12 @@ pub(crate) fn add_int_combination_with_replacement<W, R, T>(
                 if i < s_cutoff{
                     ret.push(s);
                     if k > 1{
-                        s_cutoff = (s_cutoff*(k-1))/(k+n-s-2);
+                        s_cutoff = (s_cutoff as u128 * (k-1) as u128 / (k+n-s-2) as u128) as usize;
                     }
                     k -= 1;
                 } else {
                     i -= s_cutoff;
-                    s_cutoff = (s_cutoff*(n-s-1))/(k+n-s-2);
+                    s_cutoff = (s_cutoff as u128 * (n-s-1) as u128 / (k+n-s-2) as u128) as usize;
                     s+=1;
                 }
             }
